@@ -333,6 +333,42 @@ static int load_mem(MS* m, YR_RULES** rules)
 // ------------------------------------------------------------------ crash isolation
 // Runs fn(arg) in a forked child with stdout/stderr captured. The child's stdout is the
 // result; if the child dies, a one-token summary is built from its stderr.
+// "<path>/file.c:line:col: runtime error: <message>" -> ubsan(<message without addresses>)@file.c
+static void ub_summary(const char* err, const char* p, SB* out)
+{
+  const char* ls = p; while (ls > err && ls[-1] != '\n') ls--;
+  char file[128]; int i = 0;
+  const char* e = ls; while (e < p && *e != ':') e++;
+  const char* b = e; while (b > ls && b[-1] != '/') b--;
+  while (b < e && i < 127) file[i++] = *b++;
+  file[i] = 0;
+  sb_add(out, "ubsan(");
+  for (p += 15; *p && *p != '\n'; p++)
+  {
+    if (p[0] == '0' && p[1] == 'x') { p += 2; while (hexval(*p) >= 0) p++; sb_add(out, "ADDR"); p--; continue; }
+    if (*p >= '0' && *p <= '9' && p[-1] == ' ' && !strncmp(p - 6, "index ", 6)) { while (p[1] >= '0' && p[1] <= '9') p++; sb_add(out, "N"); continue; }
+    sb_add(out, "%c", *p == ' ' ? '_' : *p);
+  }
+  sb_add(out, ")@%s", file);
+}
+
+// distinct recoverable UBSan reports (built with -fsanitize-recover=…) found in a child's stderr
+static void ub_reports(const char* err, SB* out)
+{
+  SB seen = {0};
+  const char* p = err;
+  while ((p = strstr(p, "runtime error: ")))
+  {
+    SB one = {0};
+    ub_summary(err, p, &one);
+    char key[600]; snprintf(key, sizeof key, "|%s|", sb_str(&one));
+    if (!strstr(sb_str(&seen), key)) { sb_put(&seen, key); sb_add(out, " UB:%s", sb_str(&one)); }
+    sb_free(&one);
+    p += 15;
+  }
+  sb_free(&seen);
+}
+
 static void crash_summary(const char* err, int status, SB* out)
 {
   const char* p;
@@ -391,20 +427,7 @@ static void crash_summary(const char* err, int status, SB* out)
   }
   if ((p = strstr(err, "runtime error: ")))
   {
-    // "<path>/file.c:line:col: runtime error: <message>"; addresses are dropped from the message
-    const char* ls = p; while (ls > err && ls[-1] != '\n') ls--;
-    char file[128]; int i = 0;
-    const char* e = ls; while (e < p && *e != ':') e++;
-    const char* b = e; while (b > ls && b[-1] != '/') b--;
-    while (b < e && i < 127) file[i++] = *b++;
-    file[i] = 0;
-    sb_add(out, "ubsan(");
-    for (p += 15; *p && *p != '\n'; p++)
-    {
-      if (p[0] == '0' && p[1] == 'x') { p += 2; while (hexval(*p) >= 0) p++; sb_add(out, "ADDR"); p--; continue; }
-      sb_add(out, "%c", *p == ' ' ? '_' : *p);
-    }
-    sb_add(out, ")@%s", file);
+    ub_summary(err, p, out);
     return;
   }
   if (WIFSIGNALED(status)) sb_add(out, "signal%d", WTERMSIG(status));
@@ -459,11 +482,13 @@ static int run_isolated(void (*fn)(void*), void* arg, SB* out, char** errtxt)
   for (size_t i = 0; i < no; i++) if (o[i] == '\n') o[i] = ' ';
   sb_put(out, o);
   int crashed = !(WIFEXITED(status) && WEXITSTATUS(status) == 0);
+  ub_reports(e, out);
   if (crashed)
   {
     if (out->len && out->p[out->len - 1] != ' ') sb_add(out, " ");
     crash_summary(e, status, out);
   }
+  if (getenv("VF_SHOW_STDERR") && *e) { fputs(e, stderr); fflush(stderr); }
   if (errtxt) *errtxt = e; else free(e);
   free(o);
   return crashed;
